@@ -127,6 +127,8 @@ class C11(core.Check):
                           ['dump']]})
         # SWAP whose second operand is an element of a not yet dimensioned string array, with too little memory
         # for the implicit DIM: the collector runs inside SWAP and moves the first operand's text (seed C11e)
+        c.append({'ops': [['clearmem', 5368], ['lets', 'Z$', 'xba'], ['lets', 'X$', 'bcyczb'], ['lets', 'K%', -39], ['lets', 'W%', -4],
+                          ['lets', 'Q$', 'xzyzcxb'], ['lete', 'VW%', [2], -1], ['swap', 'J$', [], 'QX$', [10]], ['lets', 'X$', 'abyyc'], ['dump']]})
         c.append({'ops': [['clearmem', 4720 + 514 + 115], ['lets', 'Q$', 'gggggggg'], ['lets', 'X$', 'AAAAA'],
                           ['lets', 'Z$', 'xxxxxxxx'], ['lets', 'KV$', 'CCCCC'], ['lets', 'Q$', ''], ['lets', 'Z$', ''],
                           ['dump'], ['swap', 'X$', [], 'QX$', [3]], ['dump'], ['peekv', 'QX$', [3], 0],
@@ -513,10 +515,12 @@ class C11(core.Check):
                 # ---- phase 3: the reference
                 if kind == 'lets':
                     rec['exp'] = 0
-                    ref.put(canon(op[1]), [], op[2])
+                    if rec['err'] not in (7, 14):
+                        # a statement refused for lack of memory assigns nothing
+                        ref.put(canon(op[1]), [], op[2])
                 elif kind == 'lete':
                     rec['exp'] = ref.arr.access(canon(op[1]), op[2], free)
-                    if not rec['exp']:
+                    if not rec['exp'] and rec['err'] not in (7, 14):
                         ref.put(canon(op[1]), op[2], op[3])
                 elif kind == 'dim':
                     rec['exp'] = 0
@@ -567,6 +571,9 @@ class C11(core.Check):
                     rec['exp'] = (0 if c in ref.scalars else 5) if not op[2] else ref.arr.access(c, op[2], free)
                 else:
                     rec['exp'] = 0
+                # a string assignment refused with Out of string space before it touched variable memory is a no-op for the
+                # variable model (the string allocator is C10's): neither output nor model step
+                rec['skip'] = (rec['err'] == 14 and kind in ('lets', 'lete', 'copy', 'midset') and m.var_current() == rec_vc)
                 rec['snap'] = self._snapshot(s)
                 rec['cells'] = self._cellinfo(s, ref)
                 rec['ref'] = {k: ref.get(k[0], list(k[1])) for k in ref.cells()}
@@ -582,7 +589,9 @@ class C11(core.Check):
         for op, rec in zip(case['ops'], tr):
             kind = op[0]
             chunks = []
-            if rec['err']:
+            if rec.get('skip'):
+                pass
+            elif rec['err']:
                 chunks.append([1, rec['err']])
             elif kind == 'varptr':
                 chunks.append([0, rec['v']])
@@ -612,6 +621,8 @@ class C11(core.Check):
         for op, rec in zip(case['ops'], tr):
             kind = op[0]
             lim = z(rec['limit'])
+            if rec.get('skip'):
+                kind = 'skipped'
             if kind == 'lets':
                 c = canon(op[1])
                 v = au.value_bytes(c, op[2])
@@ -677,7 +688,11 @@ class C11(core.Check):
     def oracle(self, case, out):
         tr = self.trace(case)
         for step, (op, rec) in enumerate(zip(case['ops'], tr)):
-            if rec.get('exp') is not None and rec['err'] != rec['exp'] and not (rec['err'] == 7 or rec['exp'] == 7):
+            # resource exhaustion is not a verdict of C11: Out of memory (7) always, Out of string space (14) in the histories
+            # that run with a few dozen bytes of memory (`clearmem`); whether memory really was exhausted is C10's accounting
+            tight = any(o[0] == 'clearmem' for o in case['ops'])
+            if rec.get('exp') is not None and rec['err'] != rec['exp'] and not (rec['err'] == 7 or rec['exp'] == 7) \
+                    and not (tight and rec['err'] == 14):
                 return 'step %d %r: error %d, the variable rules give %d' % (step, op, rec['err'], rec['exp'])
             sn = rec['snap']
             lo, hi = sn['start'], sn['vc'] + sn['acur']
